@@ -1145,9 +1145,9 @@ static inline SyntaxKind recognize11(const char* s, const ParseOptions& opts)
 static inline SyntaxKind recognize12(const char* s, const ParseOptions& opts)
 {
     if (s[0] == '_') {
-        if (s[1] == '_'
-                && opts.languageExtensions().isEnabled_extGNU_AlternateKeywords()) {
-            if (s[2] == 'v') {
+        if (s[1] == '_') {
+            if (s[2] == 'v'
+                    && opts.languageExtensions().isEnabled_extGNU_AlternateKeywords()) {
                 if (s[3] == 'o') {
                     if (s[4] == 'l') {
                         if (s[5] == 'a') {
@@ -1168,7 +1168,8 @@ static inline SyntaxKind recognize12(const char* s, const ParseOptions& opts)
                     }
                 }
             }
-            else if (s[2] == 'r') {
+            else if (s[2] == 'r'
+                     && opts.languageExtensions().isEnabled_extGNU_AlternateKeywords()) {
                 if (s[3] == 'e') {
                     if (s[4] == 's') {
                         if (s[5] == 't') {
@@ -1189,7 +1190,8 @@ static inline SyntaxKind recognize12(const char* s, const ParseOptions& opts)
                     }
                 }
             }
-            else if (s[2] == 's') {
+            else if (s[2] == 's'
+                     && opts.languageExtensions().isEnabled_extGNU_AlternateKeywords()) {
                 if (s[3] == 't') {
                     if (s[4] == 'r') {
                         if (s[5] == 'f') {
